@@ -1,4 +1,5 @@
 import XmppVerif.Drv.Core
+import XmppVerif.Drv.C01
 import XmppVerif.Drv.Recv
 import XmppVerif.Drv.Neg
 import XmppVerif.Drv.C06
@@ -18,6 +19,7 @@ import XmppVerif.Drv.C20
 open XmppVerif.Drv
 
 def handlers : List (String × Handler) := [
+  ("C01", XmppVerif.Drv.C01.handler),
   ("C03", XmppVerif.Drv.Neg.handlerC03),
   ("C04", XmppVerif.Drv.Neg.handlerC04),
   ("C11", XmppVerif.Drv.Neg.handlerC11),
